@@ -233,6 +233,11 @@ def machine(on_end, expired):
                 require(len(b) == circuit.n_qubits, lambda: f"bitstring {b} shorter/longer than the register ({circuit.n_qubits})")
                 require(tuple(int(x) for x in b) == want, lambda: f"result {tuple(b)} does not belong to this circuit (prepares {want}): wrong order?")
 
+        @staticmethod
+        def _same_result(a, b):
+            """'returns exactly what the wrapped runner returned': the very object, or an equal-valued one."""
+            return a is b or (type(a) is type(b) and [tuple(x) for x in a.bitstrings] == [tuple(x) for x in b.bitstrings])
+
         def _check_file(self, circuits, results):
             with open(self.file) as f:
                 data = json.load(f)["raw-data"]
@@ -281,7 +286,7 @@ def machine(on_end, expired):
                 self._check_result(c, circ, m, n)
                 self._check_growth(before, [circ], "single")
                 if self.inner is not None:
-                    require(len(self.inner.returned) == n_ret + 1 and m is self.inner.returned[-1], "tracker did not return the object the wrapped runner returned")
+                    require(len(self.inner.returned) == n_ret + 1 and self._same_result(m, self.inner.returned[-1]), "tracker did not return what the wrapped runner returned")
                     self._check_file([circ], [m])
                 self._note("ok")
             self.step("run_single", {"c": c, "n": n}, go)
@@ -302,7 +307,7 @@ def machine(on_end, expired):
                     self._check_growth(before, circs, "batch")
                     if self.inner is not None:
                         got = self.inner.returned[n_ret:]
-                        require(len(got) == 2 and all(a is b for a, b in zip(res, got)), "tracker did not return the objects the wrapped runner returned")
+                        require(len(got) == 2 and all(self._same_result(a, b) for a, b in zip(res, got)), "tracker did not return what the wrapped runner returned")
                         self._check_file(circs, res)
                 else:
                     for x, circ in zip(specs, circs):
@@ -311,7 +316,7 @@ def machine(on_end, expired):
                         self._check_result(x, circ, m, n)
                         self._check_growth(before, [circ], "single")
                         if self.inner is not None:
-                            require(m is self.inner.returned[-1], "tracker did not return the object the wrapped runner returned")
+                            require(self._same_result(m, self.inner.returned[-1]), "tracker did not return what the wrapped runner returned")
                             self._check_file([circ], [m])
                 self._note("ok")
                 self.info["classes"].add("twins")
@@ -344,7 +349,7 @@ def machine(on_end, expired):
                 self._check_growth(before, circs, "batch")
                 if self.inner is not None:
                     got = self.inner.returned[n_ret:]
-                    require(len(got) == len(res) and all(a is b for a, b in zip(res, got)), "tracker did not return the objects the wrapped runner returned")
+                    require(len(got) == len(res) and all(self._same_result(a, b) for a, b in zip(res, got)), "tracker did not return what the wrapped runner returned")
                     self._check_file(circs, res)
                 self._note("ok")
                 self.info["classes"].add("batch:" + mode)
